@@ -199,7 +199,7 @@ def run(repo, rep):
             n_store = 0
             for st_ in outs:
                 from ..sym import cond_eq
-                is_store = cond_eq(st_.conds, 'asce.receive()[0].command_field', 'dimsemessages.CStoreRQMessage.command_field')
+                is_store = cond_eq(st_.conds, 'asce.receive()[0].command_field', 'dimsemessages.CStoreRQMessage.command_field', fold=lambda e_: repo.try_fold(e_, repo.module('sopclass')))
                 if not is_store:
                     continue
                 n_store += 1
